@@ -26,6 +26,7 @@ import (
 	"reflect"
 	"runtime"
 	"strings"
+	"sync"
 	"time"
 
 	"com.tuntun.rangers/node/src/common"
@@ -818,6 +819,184 @@ func dropField(r *hx.Rng, b []byte) []byte {
 	return c
 }
 
+// ---------------------------------------------------------------- purity of the codec calls
+
+type heldBytes struct {
+	kind     string
+	b, copy  []byte
+	value    string
+	hash     string
+	reported bool
+}
+
+func (x *H) purity(rounds int) {
+	if rounds < 4 {
+		rounds = 4
+	}
+	g := x.g
+	var held []*heldBytes
+	hold := func(kind string, b []byte, err error, value, hash string) {
+		if err == nil && len(b) > 0 {
+			held = append(held, &heldBytes{kind: kind, b: b, copy: append([]byte{}, b...), value: value, hash: hash})
+		}
+	}
+	recheck := func(after string) {
+		for _, h := range held {
+			x.res.Count("pure:held-"+h.kind, "p"+h.kind+hexs(h.copy), true)
+			if h.reported {
+				continue
+			}
+			what := ""
+			if !bytes.Equal(h.b, h.copy) {
+				what = "the bytes " + h.kind + " returned were overwritten in place by a later codec call (" + after + ")"
+			} else {
+				// the held bytes must still parse to the same object
+				switch h.kind {
+				case "MarshalBlockHeader":
+					var v *types.BlockHeader
+					pan, _ := guard(func() { v, _ = types.UnMarshalBlockHeader(h.b) })
+					if pan || v == nil || v.GenHash().Hex() != h.hash || cHdr(v) != h.value {
+						what = "the held header bytes no longer parse to the header that was serialised (" + after + ")"
+					}
+				case "MarshalTransaction":
+					var v types.Transaction
+					var err error
+					pan, _ := guard(func() { v, err = types.UnMarshalTransaction(h.b) })
+					if pan || err != nil || v.GenHash().Hex() != h.hash {
+						what = "the held transaction bytes no longer parse to the transaction that was serialised (" + after + ")"
+					}
+				}
+			}
+			if what != "" {
+				h.reported = true
+				x.res.Violate("C09/pure:marshal-result-mutated-by-later-call", what,
+					map[string]interface{}{"kind": h.kind, "value": h.value, "bytes_at_return": hexs(h.copy), "bytes_now": hexs(h.b), "after": after})
+			}
+		}
+	}
+	for r := 0; r < rounds; r++ {
+		// the order core.insertBlock uses: header bytes held across one MarshalTransaction per executed transaction
+		h := g.header(true)
+		b, err := types.MarshalBlockHeader(h)
+		hold("MarshalBlockHeader", b, err, cHdr(h), h.GenHash().Hex())
+		var txs []*types.Transaction
+		for j := 0; j < 3; j++ {
+			t := g.tx()
+			nt := normTx(*t)
+			txs = append(txs, t)
+			b, err = types.MarshalTransaction(t)
+			hold("MarshalTransaction", b, err, cTx(&nt), t.GenHash().Hex())
+		}
+		recheck("MarshalTransaction calls on the same goroutine")
+		blk := &types.Block{Header: g.header(true), Transactions: txs}
+		b, err = types.MarshalBlock(blk)
+		hold("MarshalBlock", b, err, cHdr(blk.Header), "")
+		gr := g.group(true)
+		b, err = types.MarshalGroup(gr)
+		hold("MarshalGroup", b, err, cGroup(gr), "")
+		b, err = types.MarshalTransactions(txs)
+		hold("MarshalTransactions", b, err, "", "")
+		b, err = types.MarshalMember(&types.Member{Id: g.r.Bytes(8), PubKey: g.r.Bytes(16)})
+		hold("MarshalMember", b, err, "", "")
+		h2 := g.header(true)
+		b, err = types.MarshalBlockHeader(h2)
+		hold("MarshalBlockHeader", b, err, cHdr(h2), h2.GenHash().Hex())
+		recheck("Marshal* calls of other objects on the same goroutine")
+		// parsers in between
+		for _, hb := range held {
+			c := append([]byte{}, hb.copy...)
+			guard(func() { types.UnMarshalBlock(c); types.UnMarshalGroup(c); types.UnMarshalTransaction(c) })
+		}
+		recheck("UnMarshal* calls on the same goroutine")
+		// other goroutines serialise while the results are held (values prepared here: one PRNG)
+		var work [][]*types.Block
+		for k := 0; k < 4; k++ {
+			var l []*types.Block
+			for j := 0; j < 6; j++ {
+				l = append(l, &types.Block{Header: g.header(true), Transactions: []*types.Transaction{g.tx(), g.tx()}})
+			}
+			work = append(work, l)
+		}
+		var wg sync.WaitGroup
+		for k := range work {
+			wg.Add(1)
+			go func(l []*types.Block) {
+				defer wg.Done()
+				for _, bl := range l {
+					guard(func() {
+						types.MarshalBlock(bl)
+						types.MarshalBlockHeader(bl.Header)
+						for _, t := range bl.Transactions {
+							types.MarshalTransaction(t)
+						}
+					})
+				}
+			}(work[k])
+		}
+		wg.Wait()
+		recheck("Marshal* calls on other goroutines")
+		if len(held) > 40 {
+			held = held[len(held)-20:]
+		}
+	}
+
+	// parsed objects must not alias the input: scribble over the input after parsing
+	scribble := func(b []byte) {
+		for i := range b {
+			b[i] ^= 0xa5
+		}
+	}
+	alias := func(kind string, src []byte, before, after string) {
+		x.res.Count("pure:input-"+kind, "a"+kind+hexs(src), true)
+		if before != after {
+			x.res.Violate("C09/pure:parsed-object-aliases-input", "the object "+kind+" returned changed when the caller reused the input buffer",
+				map[string]interface{}{"kind": kind, "bytes": hexs(src), "before": before, "after": after})
+		}
+	}
+	for r := 0; r < rounds; r++ {
+		hv := g.header(true)
+		if src, err := types.MarshalBlockHeader(hv); err == nil && len(src) > 0 {
+			in := append([]byte{}, src...)
+			v, _ := types.UnMarshalBlockHeader(in)
+			if v != nil {
+				d1 := cHdr(v) + v.GenHash().Hex()
+				scribble(in)
+				alias("UnMarshalBlockHeader", src, d1, cHdr(v)+v.GenHash().Hex())
+			}
+		}
+		tv := g.tx()
+		if src, err := types.MarshalTransaction(tv); err == nil {
+			in := append([]byte{}, src...)
+			v, e := types.UnMarshalTransaction(in)
+			if e == nil {
+				d1 := cTx(&v) + v.GenHash().Hex()
+				scribble(in)
+				alias("UnMarshalTransaction", src, d1, cTx(&v)+v.GenHash().Hex())
+			}
+		}
+		gv := g.group(true)
+		if src, err := types.MarshalGroup(gv); err == nil {
+			in := append([]byte{}, src...)
+			v, e := types.UnMarshalGroup(in)
+			if e == nil && v != nil && v.Header != nil {
+				d1 := cGroup(v)
+				scribble(in)
+				alias("UnMarshalGroup", src, d1, cGroup(v))
+			}
+		}
+		bl := &types.Block{Header: g.header(true), Transactions: []*types.Transaction{g.tx()}}
+		if src, err := types.MarshalBlock(bl); err == nil && len(src) > 0 {
+			in := append([]byte{}, src...)
+			v, e := types.UnMarshalBlock(in)
+			if e == nil && v != nil && v.Header != nil && len(v.Transactions) == 1 {
+				d1 := cHdr(v.Header) + cTx(v.Transactions[0])
+				scribble(in)
+				alias("UnMarshalBlock", src, d1, cHdr(v.Header)+cTx(v.Transactions[0]))
+			}
+		}
+	}
+}
+
 // ---------------------------------------------------------------- main
 
 type H struct {
@@ -967,6 +1146,63 @@ func (x *H) caseBlk(p *pb.Block, origin string) {
 	x.cs.Add("CBlk "+cTbl(tbl)+" (mk_pb_block "+hd+" "+hx.CoqList(txs)+") "+o, map[string]interface{}{"kind": "PbToBlock", "origin": origin, "pb": p.String(), "panic": pan})
 }
 
+// a parser that returns err == nil must hand back an object its consumers can use: required sub-objects present,
+// serialising it again and computing its hashes must not panic (core and consensus do exactly that, without recover)
+func (x *H) usable(kind string, b []byte, origin string, tv *types.Transaction, tl []*types.Transaction, hv *types.BlockHeader, isHdr bool, bv *types.Block, isBlk bool, gv *types.Group, isGrp bool) {
+	bad := ""
+	chk := func(what string, f func()) {
+		if bad != "" {
+			return
+		}
+		if pan, msg := guard(f); pan {
+			bad = what + " panics: " + msg
+		}
+	}
+	switch {
+	case tv != nil:
+		chk("MarshalTransaction of the parsed transaction", func() { types.MarshalTransaction(tv) })
+		chk("Transaction.GenHash", func() { tv.GenHash(); tv.GenHashes() })
+	case tl != nil:
+		for _, t := range tl {
+			if t == nil {
+				bad = "a nil transaction in the parsed list"
+			}
+		}
+		chk("MarshalTransactions of the parsed list", func() { types.MarshalTransactions(tl) })
+	case isHdr:
+		if hv == nil {
+			bad = "nil header and nil error"
+		}
+		chk("MarshalBlockHeader of the parsed header", func() { types.MarshalBlockHeader(hv) })
+		chk("BlockHeader.GenHash", func() { hv.GenHash(); hv.ToString() })
+	case isBlk:
+		if bv == nil || bv.Header == nil {
+			bad = "block without header and nil error"
+		} else {
+			for _, t := range bv.Transactions {
+				if t == nil {
+					bad = "nil transaction in the parsed block"
+				}
+			}
+		}
+		chk("MarshalBlock of the parsed block", func() { types.MarshalBlock(bv) })
+		chk("block.Header.GenHash", func() { bv.Header.GenHash() })
+	case isGrp:
+		if gv == nil || gv.Header == nil {
+			bad = "group without header and nil error"
+		}
+		chk("MarshalGroup of the parsed group", func() { types.MarshalGroup(gv) })
+		chk("group.Header.GenHash", func() { gv.Header.GenHash() })
+	default:
+		return
+	}
+	x.res.Count("usable:"+kind, "u"+kind+hexs(b), true)
+	if bad != "" {
+		x.res.Violate("C09/total:parsed-object-unusable:"+kind, kind+" returned err == nil for "+hexs(b)+" but the result cannot be used: "+bad,
+			map[string]interface{}{"origin": origin, "bytes": hexs(b), "defect": bad})
+	}
+}
+
 // parse bytes with one of the UnMarshal* entry points under recover; class = ok / err / panic
 func (x *H) wire(kind string, b []byte, origin string) {
 	var err error
@@ -976,6 +1212,7 @@ func (x *H) wire(kind string, b []byte, origin string) {
 	var tv *types.Transaction
 	var gv *types.Group
 	var bv *types.Block
+	var tl []*types.Transaction
 	switch kind {
 	case "UnMarshalTransaction":
 		pan, msg = guard(func() {
@@ -986,7 +1223,7 @@ func (x *H) wire(kind string, b []byte, origin string) {
 			}
 		})
 	case "UnMarshalTransactions":
-		pan, msg = guard(func() { _, err = types.UnMarshalTransactions(b) })
+		pan, msg = guard(func() { tl, err = types.UnMarshalTransactions(b) })
 	case "UnMarshalBlockHeader":
 		pan, msg = guard(func() { hv, err = types.UnMarshalBlockHeader(b) })
 	case "UnMarshalBlock":
@@ -1009,6 +1246,7 @@ func (x *H) wire(kind string, b []byte, origin string) {
 	if pan || err != nil {
 		return
 	}
+	x.usable(kind, b, origin, tv, tl, hv, kind == "UnMarshalBlockHeader", bv, kind == "UnMarshalBlock", gv, kind == "UnMarshalGroup")
 	// fixed point of values obtained by parsing
 	switch {
 	case tv != nil:
@@ -1195,6 +1433,9 @@ func (x *H) wireCase(kind int, b []byte, origin string, e2e bool) {
 		x.res.Note("unclassified decoder error on " + hexs(b))
 	}
 	x.cs.Add("CWire "+hx.CoqHex(b)+" "+term, map[string]interface{}{"kind": "proto.Unmarshal " + kindNames[kind], "origin": origin, "bytes": hexs(b), "class": wireClass[code]})
+	if e2e && code == 0 {
+		x.wire([]string{"UnMarshalTransaction", "UnMarshalTransactions", "UnMarshalBlockHeader", "UnMarshalBlock", "UnMarshalGroup"}[kind], b, "wire-"+origin)
+	}
 	if !e2e || kind == 1 {
 		return
 	}
@@ -1883,6 +2124,11 @@ func main() {
 		}
 		x.wireCase(i%5, b, "random", i%2 == 0)
 	}
+
+
+	// ---- 10. purity: bytes a Marshal* call returned belong to the caller; objects a parser returned do not depend on
+	// the input buffer any more
+	x.purity(n / 15)
 
 	for _, s := range []string{"pb transaction with only Type set: wire 2801", "header subsets: Height/Nonce/TotalQN/EvictedTxs absent x valid and hostile time bytes",
 		"node headers in UTC / Local(+08:00) / fixed zones incl. +01:00:07 and +00:00:01", "mutated encodings of blocks, headers, transactions, groups"} {
